@@ -1060,12 +1060,14 @@ class Interp:
                         given[n.value.id] = base.attrs[t.attr]
         shadow = Obj(base.name, cls=base.cls, kind=base.kind)
         shadow.lazy_done = True
-        mark = len(self.effects)
+        # the constructor runs in a sandbox interpreter with neutral hooks and its own decisions (first path): neither the
+        # rule's environment model (recorded engine calls ...) nor this run's decision vector and effects see it
+        sub = Interp(self.prog, Hooks(), [])
+        sub._modenv = self._modenv
         try:
-            self.call_func(Func(init[0], init[1], fdef, self_val=shadow), [given.get(p, Sym(f"init:{p}")) for p in params], {}, None)
-        except _Raise:
+            sub.call_func(Func(init[0], init[1], fdef, self_val=shadow), [given.get(p, Sym(f"init:{p}")) for p in params], {}, None)
+        except (_Raise, AnalysisError):
             pass
-        del self.effects[mark:]
 
         def rebind(v):
             if isinstance(v, Bound) and v.recv is shadow:
@@ -1575,6 +1577,15 @@ class Interp:
             return NodeV(None, name=f"{n.name}.transform@{self.siteid(site)}")
         if name == "replace":
             self.effect("nodereplace", n, a0, site)
+            par = n.parent
+            if isinstance(par, NodeV):  # node.replace(new): the parent's slot now holds the new node
+                for k, v in list(par.args.items()):
+                    if v is n:
+                        par.args[k] = a0
+                    elif isinstance(v, (Lst, Tup)) and any(x is n for x in v.items):
+                        v.items[:] = [a0 if x is n else x for x in v.items]
+                if isinstance(a0, NodeV):
+                    a0.parent = par
             return a0
         if name == "join":
             self.effect("nodejoin", n, args, kwargs, site)
